@@ -16,6 +16,8 @@
   `Pos()` / `End()` of every node with Go on every accepted request.
 -/
 import MF.Proofs.DMLSound
+import MF.Proofs.DMLPos
+import MF.Props.C05Query
 namespace MF.Props.C05
 open MF MF.Expr MF.DML
 
@@ -135,5 +137,81 @@ theorem dml_fields_aligned_parsed_partial {fuel : Nat} {ts rest : List Token} {s
 
 /-- every Ident node built by the statement level carries the `Pos` and the `End` of one token -/
 theorem dml_ident_span (t : Token) : (identOf t).namePos = t.pos ∧ (identOf t).nameEnd = t.end := ⟨rfl, rfl⟩
+
+/-! ## `Pos()` / `End()` of the statement-level nodes (session 3) — FULL per node-building call
+
+For the positioned DML model (`parsePExpr` in the slots; what the DML channel runs), on any suffix `ts` of a token list
+with the lexer's token facts (`TokensOK`, true of every `lexAll` result: `lexed_tokensOK`): the node returned by the call
+has `Pos()` = `pos` of the FIRST and `End()` = `end` of the LAST token of the run the call consumed (`Over`).
+`Rparen + 1` is the end of the one-byte `)` token and `DefaultPos + 7` the end of the DEFAULT token (`MF.Lex.TokLen`);
+`End()` of Where / UpdateItem / DefaultExpr-with-expression / Delete / Update is `End()` of the last slot
+(`MF.Query.parsePExpr_over`, i.e. C05 for expressions), `End()` of ValuesInput / Insert the end of the last row.
+With `span_facts` / `span_nested` / `span_ordered` (MF/Props/C05Query.lean, about runs of tokens) an `Over` run of lexer
+output is token-aligned, `Pos() < End() ≤ len(input)`, nested in an enclosing run and ordered against a later run.
+NOT proved: one theorem over ALL nodes of the tree at once (the statements are per call), C06 for DML. -/
+
+open MF.Query (Over TokensOK)
+
+theorem dml_default_span {len f : Nat} {ts rest : List Token} {d : DefaultExpr PExpr} (hT : TokensOK len ts)
+    (h : parseDefaultExpr parsePExpr f ts = .ok (d, rest)) :
+    ∃ pre, ts = pre ++ rest ∧ Over (posDefault d) (endDefault d) pre := defaultP_over hT h
+
+theorem dml_row_span {len f : Nat} {ts rest : List Token} {r : ValuesRow PExpr} (hT : TokensOK len ts)
+    (h : parseValuesRow parsePExpr f ts = .ok (r, rest)) :
+    ∃ pre, ts = pre ++ rest ∧ Over (posRow r) (endRow r) pre := rowP_over hT h
+
+theorem dml_input_span {len f : Nat} {ts rest : List Token} {v : ValuesInput PExpr} (hT : TokensOK len ts)
+    (h : parseValuesInput parsePExpr f ts = .ok (v, rest)) :
+    ∃ pre, ts = pre ++ rest ∧ Over (posInput v) (endInput v) pre := inputP_over hT h
+
+theorem dml_item_span {len f : Nat} {ts rest : List Token} {u : UpdateItem PExpr} (hT : TokensOK len ts)
+    (h : parseUpdateItem parsePExpr f ts = .ok (u, rest)) :
+    ∃ pre, ts = pre ++ rest ∧ Over (posItem u) (endItem u) pre := itemP_over hT h
+
+theorem dml_where_span {len f : Nat} {ts rest : List Token} {w : DML.Where PExpr} (hT : TokensOK len ts)
+    (h : DML.parseWhere parsePExpr f ts = .ok (w, rest)) :
+    ∃ pre, ts = pre ++ rest ∧ Over (posWhere w) (endWhere w) pre := whereP_over hT h
+
+theorem dml_alias_span {ts rest : List Token} {a : DML.AsAlias} (h : DML.tryParseAsAlias ts = .ok (some a, rest)) :
+    ∃ pre, ts = pre ++ rest ∧ Over (posAlias a) (endAlias a) pre := aliasP_over h
+
+/-- Insert, Delete, Update -/
+theorem dml_statement_span {len f : Nat} {ts rest : List Token} {s : PStmt} (hT : TokensOK len ts)
+    (h : parseDML parsePExpr f ts = .ok (s, rest)) :
+    ∃ pre, ts = pre ++ rest ∧ Over (posD s) (endD s) pre := by
+  unfold parseDML at h
+  split at h
+  · cases h
+  · exact stmtP_over hT h
+
+/-- on lexer output: `Pos()` and `End()` of a parsed statement are token boundaries, `Pos() < End() ≤ len(input)` -/
+theorem dml_statement_positions {buf : Bytes} {ts rest : List Token} {f : Nat} {s : PStmt}
+    (hl : Lex.lexAll buf = .ok ts) (h : parseDML parsePExpr f ts = .ok (s, rest)) (hr : rest ≠ []) :
+    (∃ t ∈ ts, t.pos = posD s) ∧ (∃ t ∈ ts, t.end = endD s) ∧ posD s < endD s ∧ endD s ≤ buf.length := by
+  obtain ⟨pre, hts, ho⟩ := dml_statement_span (lexed_tokensOK hl) h
+  exact span_facts (l := []) hl (by simpa using hts) hr ho
+
+/-! non-vacuity: a concrete statement through the model lexer and the positioned model parser -/
+
+def dmlPosToks : List Token :=
+  match Lex.lexAll (B "UPDATE t AS u SET u.a = DEFAULT, b = b + 1 WHERE c IS NULL") with
+  | .ok ts => ts
+  | _ => []
+
+theorem dmlPosToks_lex : Lex.lexAll (B "UPDATE t AS u SET u.a = DEFAULT, b = b + 1 WHERE c IS NULL") = .ok dmlPosToks := by rfl
+
+def dmlIsOk {α : Type} : Res α → Bool
+  | .ok _ => true
+  | _ => false
+
+theorem dmlPos_parse : dmlIsOk (parseDML parsePExpr (dmlFuel dmlPosToks) dmlPosToks) = true := by decide +kernel
+
+/-- `dml_statement_span` on it -/
+theorem dml_example_span : ∃ (s : PStmt) (pre rest : List Token), dmlPosToks = pre ++ rest ∧ Over (posD s) (endD s) pre := by
+  cases h : parseDML parsePExpr (dmlFuel dmlPosToks) dmlPosToks with
+  | ok p =>
+    obtain ⟨pre, hts, ho⟩ := dml_statement_span (s := p.1) (rest := p.2) (lexed_tokensOK dmlPosToks_lex) h
+    exact ⟨p.1, pre, p.2, hts, ho⟩
+  | _ => have := dmlPos_parse; rw [h] at this; cases this
 
 end MF.Props.C05
